@@ -130,6 +130,45 @@ def shapeOk (s : Sketch) : Bool :=
         && (!s.solid || s.corePts.contains k || s.isRim k))
     && s.shellOuterPts.all (fun k => decide (k < s.nPts)) && s.corePts.all (fun k => decide (k < s.nPts))
 
+/-! ### a finder session: queries interleaved with changes of the mesh
+
+One finder object (`GeometricFinder` / `RoundSolidFinder`, created once) and everything that can happen between its
+queries.  The state is the vertex list the mesh holds *now*; a re-assembly replaces it (what the new assembly contains
+is the business of the assembly model, here it is an argument). -/
+
+inductive SessOp where
+  | move (k : Nat) (p : V3)                    -- `mesh.vertices[k].move_to(p)`
+  | reassemble (vs : List V3)                  -- `mesh.backport()` / `delete(); clear(); assemble()`
+  | sphere (c : V3) (r : Option Rat)           -- `finder.find_in_sphere(c, r)`
+  | plane (o n : V3)                           -- `finder.find_on_plane(o, n)`
+  | core (s : Sketch) (pts : List V3)          -- `finder.find_core(end)`, `pts` the sketch points of that end
+  | shell (s : Sketch) (pts : List V3)         -- `finder.find_shell(end)`
+
+/-- the vertex list after one operation (queries leave it alone) -/
+def SessOp.next (vs : List V3) : SessOp → List V3
+  | .move k p => vs.set k p
+  | .reassemble vs' => vs'
+  | _ => vs
+
+/-- the answer of a query on the current vertex list (`none` for the operations that are not queries) -/
+def SessOp.answer (vs : List V3) : SessOp → Option (List Nat)
+  | .sphere c r => some (findInSphere vs c r)
+  | .plane o n => some (findOnPlane vs o n)
+  | .core s pts => some (findCore vs s pts)
+  | .shell s pts => some (findShell vs s pts)
+  | _ => none
+
+/-- the vertex list after a sequence of operations -/
+def stateAfter (vs : List V3) (ops : List SessOp) : List V3 := ops.foldl SessOp.next vs
+
+/-- the answers of the queries of a session, in order -/
+def runSession (vs : List V3) : List SessOp → List (List Nat)
+  | [] => []
+  | op :: ops =>
+    match op.answer vs with
+    | some a => a :: runSession (op.next vs) ops
+    | none => runSession (op.next vs) ops
+
 /-! ## view-point re-orientation -/
 
 inductive Err where
@@ -441,6 +480,9 @@ def topOk (obs ceil : V3) (P : Hex) : Bool :=
 
 def rhOk (P : Hex) : Bool := (List.range 8).all (fun i => decide (0 < tp P i))
 
+/-- what the request `c18.canon` answers `ok` for -/
+def canonicalOk (obs ceil : V3) (P : Hex) : Bool := frontOk obs ceil P && topOk obs ceil P && rhOk P
+
 /-! ### the 48 relabellings of the hexahedron -/
 
 def proper24 : List (List Nat) :=
@@ -598,6 +640,21 @@ def handle (op : String) (args : List String) : Option String :=
           match x.2 with
           | .ok out => "ok " ++ showNatList (indicesIn x.1.1 out)
           | .error e => "err " ++ e.toStr)))
+  | "c18.session", v0 :: ops => do
+      -- `m:k:p`  `r:pts`  `s:c:r`  `p:o:n`  `c:sketch:pts`  `h:sketch:pts`; answers joined by `|`
+      let v0 ← parsePts? v0
+      let ops ← ops.mapM (fun t =>
+        match t.splitOn ":" with
+        | ["m", k, p] => do some (SessOp.move (← k.toNat?) (← parseV3? p))
+        | ["r", pts] => do some (SessOp.reassemble (← parsePts? pts))
+        | ["s", c, r] => do
+            let r ← if r = "tol" then some none else (parseRat? r).map some
+            some (SessOp.sphere (← parseV3? c) r)
+        | ["p", o, n] => do some (SessOp.plane (← parseV3? o) (← parseV3? n))
+        | ["c", name, pts] => do some (SessOp.core (← sketchOf name) (← parsePts? pts))
+        | ["h", name, pts] => do some (SessOp.shell (← sketchOf name) (← parsePts? pts))
+        | _ => none)
+      some ("|".intercalate ((runSession v0 ops).map showNatList))
   | "c18.hull", [eps, pts, tris] => do
       let eps ← parseRat? eps
       let pts ← parsePts? pts
@@ -613,7 +670,7 @@ def handle (op : String) (args : List String) : Option String :=
         let P := Hex.ofList pts
         let bad := (if frontOk obs ceil P then [] else ["front"]) ++ (if topOk obs ceil P then [] else ["top"])
           ++ (if rhOk P then [] else ["handedness"])
-        some (if bad.isEmpty then "ok" else "fail " ++ ",".intercalate bad)
+        some (if canonicalOk obs ceil P then "ok" else "fail " ++ ",".intercalate bad)
   | _, _ => none
 
 end CBV.C18
